@@ -474,6 +474,10 @@ func TestC40Worker(t *testing.T) {
 			flush()
 		}
 
+		if i%25 == 0 {
+			flush() // partial counts survive a fatal error
+		}
+
 		// state repair: after a request that may have changed users, tokens, DSNs or tables, and periodically
 		if i%50 == 49 || (resp.Status < 300 && (q.Method == "DELETE" || q.Method == "PATCH") && !strings.HasSuffix(q.Route, "/rows")) {
 			w.ensureState(false)
@@ -559,11 +563,12 @@ func TestC40(t *testing.T) {
 	)
 
 	type death struct {
-		batch    int
-		last     string
-		logTail  string
-		reason   string
-		timedOut bool
+		batch     int
+		last      string
+		logTail   string
+		reason    string
+		timedOut  bool
+		hadResult bool
 	}
 
 	deaths := []death{}
@@ -610,10 +615,14 @@ func TestC40(t *testing.T) {
 			}
 
 			if err != nil || !res.Done {
-				d := death{batch: j.batch, timedOut: timedOut}
+				d := death{batch: j.batch, timedOut: timedOut, hadResult: rerr == nil}
 
 				if lb, e := os.ReadFile(logPath); e == nil {
 					if m := c40FatalRe.Find(lb); m != nil {
+						d.reason = string(m)
+					}
+
+					if m := regexp.MustCompile(`(?m)^fatal error: .*$`).Find(lb); m != nil {
 						d.reason = string(m)
 					}
 
@@ -746,19 +755,36 @@ func TestC40(t *testing.T) {
 			}
 
 			return c
-		}, vh.Trunc(strings.TrimPrefix(reason, "fatal error: "), 60))
+		}, vh.Trunc(strings.TrimPrefix(reason, "fatal error: "), 60)) + ":" + strings.ReplaceAll(lastRoute(d.last), " ", "")
+
+		if !d.hadResult {
+			r.Evaluations += int64(lastIndex(d.last) + 1)
+			r.Distinct += int64(lastIndex(d.last) + 1)
+		}
 
 		r.Violate(vh.Violation{Key: key, Desc: fmt.Sprintf("child process of batch %d died (%s); request in flight: %s", d.batch, reason, vh.Trunc(d.last, 600)),
 			Case: map[string]any{"batch": d.batch, "count": per, "index": lastIndex(d.last), "last": vh.Trunc(d.last, 2000)}, Observed: d.logTail})
 	}
 
-	if r.Evaluations == 0 {
+	if r.Evaluations == 0 && len(deaths) == 0 {
 		t.Fatal("observed nothing: no child served a request (see child logs in " + dir + ")")
 	}
 
 	if err := r.Write(); err != nil {
 		t.Fatal(err)
 	}
+}
+
+func lastRoute(line string) string {
+	var d struct {
+		Request struct {
+			Route string `json:"route"`
+		} `json:"request"`
+	}
+
+	_ = json.Unmarshal([]byte(line), &d)
+
+	return d.Request.Route
 }
 
 func lastIndex(line string) int {
